@@ -8,6 +8,9 @@ package suites
 //	pingnick.flood    the flood limiter is saturated (hook), a PRIVMSG is sleeping in
 //	                  Client.Send, then a PING arrives over the wire: the PONG must reach the
 //	                  peer in front of the PRIVMSG and must leave the limiter untouched.
+//	pingnick.bg       a PING that arrives while a background handler is busy (AddBg / AddTmp
+//	                  blocked on a gate the harness holds; the built-in 2 s handleConnect after
+//	                  001) is answered before that handler returns.
 //	pingnick.seq      event sequences run synchronously through Client.RunHandlers (volume,
 //	                  hostile parameters); the limiter is primed before every event so that the
 //	                  route of the answer (Client.write / Client.Send) is observable.
@@ -28,6 +31,7 @@ import (
 	"math/rand"
 	"sort"
 	"strings"
+	"sync"
 	"sync/atomic"
 	"time"
 	"unicode/utf8"
@@ -361,6 +365,115 @@ func runPNFlood(c Case) Result {
 	return res
 }
 
+// ------------------------------------------------------------------ background handlers
+
+// runPNBackground: a PING that arrives while a background handler is busy is answered all the
+// same.  Case: variant, then the PING's parameters.
+//
+//	g  a Handlers.AddBg handler on PRIVMSG blocks on a gate the harness holds; the PONG must
+//	   reach the peer while the gate is still closed (deadline 5 s, then the gate is opened)
+//	t  the same with a Handlers.AddTmp handler (always run in the background)
+//	w  the built-in background handler of 001 (handleConnect sleeps 2 s): a PING sent right
+//	   after 001 must be answered before a marker the harness writes 1.5 s later
+//
+// Every wait is bounded; a case costs milliseconds when the property holds and at most ~6 s
+// when it does not.
+func runPNBackground(c Case) Result {
+	if len(c) < 1 {
+		return Result{Obs: "?short-case", Sig: "trivial"}
+	}
+	variant, params := c[0], []string(c[1:])
+	line, transportable := pnLine("PING", "", false, params)
+	if !transportable || (variant != "g" && variant != "t" && variant != "w") {
+		return Result{Obs: "?untransportable", Sig: "trivial"}
+	}
+	s := pnStart(drive.BaseConfig(), false)
+	gate := make(chan struct{})
+	var once sync.Once
+	open := func() { once.Do(func() { close(gate) }) }
+	defer s.Stop()
+	defer open() // (runs before Stop: a handler still blocked must not hold the shutdown up)
+	var started int32
+	block := func() {
+		atomic.AddInt32(&started, 1)
+		select {
+		case <-gate:
+		case <-time.After(8 * time.Second): // never rely on the harness alone to unblock
+		}
+	}
+	res := Result{Sig: "bg-" + variant + "/" + pnTokenSig(pnLast(params))}
+	deadline := 5 * time.Second
+	switch variant {
+	case "g":
+		s.C.Handlers.AddBg(girc.PRIVMSG, func(*girc.Client, girc.Event) { block() })
+	case "t":
+		s.C.Handlers.AddTmp(girc.PRIVMSG, 0, func(*girc.Client, girc.Event) bool { block(); return true })
+	}
+	mark := s.Mark()
+	if variant == "w" {
+		deadline = 1500 * time.Millisecond
+		genBefore := atomic.LoadInt32(&s.general)
+		if err := s.Send(":irc.test 001 me :Welcome to the test network"); err != nil || !s.waitGeneralFor(genBefore, 5*time.Second) {
+			return Result{Obs: "?stall", Oracle: "stall: 001 was not handled within 5s", Sig: "stall"}
+		}
+	} else {
+		if err := s.Send(":bob!b@h PRIVMSG me :go"); err != nil {
+			return Result{Obs: "?stall", Oracle: "stall: peer write failed", Sig: "stall"}
+		}
+		for t0 := time.Now(); atomic.LoadInt32(&started) == 0; time.Sleep(200 * time.Microsecond) {
+			if time.Since(t0) > 5*time.Second {
+				return Result{Obs: "?stall", Oracle: "stall: the background handler did not start within 5s", Sig: "stall"}
+			}
+		}
+	}
+	if err := s.Send(line); err != nil {
+		return Result{Obs: "?stall", Oracle: "stall: peer write failed", Sig: "stall"}
+	}
+	var outs []string
+	for t0 := time.Now(); len(outs) == 0 && time.Since(t0) < deadline; time.Sleep(200 * time.Microsecond) {
+		for _, l := range pnTrim(s.Since(mark)) {
+			if strings.HasPrefix(l, "PONG") {
+				outs = append(outs, l)
+			}
+		}
+	}
+	if len(outs) == 0 {
+		// the marker: from here on a PONG is late. (Written by the client itself through
+		// Client.write, which does not depend on the dispatcher.)
+		s.C.Cmd.Ping("~late~")
+		open()
+		res.Obs = "?delayed"
+		what := "a background handler (Handlers.AddBg) was still running"
+		switch variant {
+		case "t":
+			what = "a temporary handler (Handlers.AddTmp) was still running"
+		case "w":
+			what = "handleConnect (001) was still sleeping in the background"
+		}
+		res.Oracle = fmt.Sprintf("pong-delayed-by-background-handler: PING %q was not answered within %v while %s", params, deadline, what)
+		return res
+	}
+	stillBlocked := variant == "w" || atomic.LoadInt32(&started) > 0
+	open()
+	res.Obs = HexList(outs)
+	res.Oracle = pnPongOracle(outs, params)
+	if res.Oracle == "" && !stillBlocked {
+		res.Oracle = "stall: the background handler was not running when the PONG arrived"
+	}
+	return res
+}
+
+func (s *pnSession) waitGeneralFor(above int32, d time.Duration) bool {
+	deadline := time.Now().Add(d)
+	for atomic.LoadInt32(&s.general) <= above {
+		if time.Now().After(deadline) {
+			return false
+		}
+		time.Sleep(200 * time.Microsecond)
+	}
+	return true
+}
+
 // ------------------------------------------------------------------ sequences
 
 type pnEvent struct {
@@ -472,7 +585,7 @@ func runPNSeq(c Case, connected bool) Result {
 			s.C.Cmd.Nick(x)
 		}
 		line, transportable := "", false
-		if connected && ev.cmd != "!NICK" {
+		if connected && ev.cmd != "!NICK" && ev.cmd != girc.RPL_WELCOME {
 			line, transportable = pnLine(ev.cmd, ev.src, ev.hasSrc, ev.params)
 		}
 		if transportable {
@@ -484,7 +597,15 @@ func runPNSeq(c Case, connected bool) Result {
 			if ev.hasSrc {
 				e.Source = &girc.Source{Name: ev.src}
 			}
-			s.C.RunHandlers(e)
+			if ev.cmd == girc.RPL_WELCOME {
+				// 001 has a background handler that sleeps 2 s (handleConnect). These suites are
+				// about what the handlers write, not about dispatch: the event is run beside
+				// the session (in every mode) so that a dispatcher that waits for background
+				// handlers cannot slow the run down; pingnick.bg is the suite that looks at it.
+				go s.C.RunHandlers(e)
+			} else {
+				s.C.RunHandlers(e)
+			}
 		}
 		if ev.cmd == girc.RPL_WELCOME && len(ev.params) > 0 {
 			if !s.waitGeneral(genBefore) {
@@ -1073,6 +1194,17 @@ func init() {
 			return Case(ps)
 		},
 		Run: runPNFlood,
+	})
+	Register(&Suite{
+		Name: "pingnick.bg",
+		Prop: []string{"C17"},
+		Fixed: func() []Case {
+			return []Case{{"g", "x"}, {"t", "x"}, {"w", "x"}, {"g", "a b"}, {"w", ""}, {"t", ":c"}}
+		},
+		Gen: func(r *rand.Rand) Case { // short tokens: a failing case is already minimal
+			return Case{Pick(r, "g", "t", "w"), Pick(r, "x", "a b", "", ":", "t1", " y", "\xc3\xa9")}
+		},
+		Run: runPNBackground,
 	})
 	Register(&Suite{
 		Name:  "pingnick.seq",
